@@ -21,6 +21,9 @@ def run(tier, seed):
     vocab.add_smartquotes_obligations(rep, "C19")
     gen_universe(rep, "vf.oracles2:c19_typographer", "vf.oracles2:gen_c19", tier, "rules_core.replacements / smartquotes", "typographer on/off: same token shape; non-text tokens and autolink text identical; smartquotes substitutes only straight quotes in place",
                  ["commonmark", "js-default"], "inline documents over 26 fragments (quotes, autolinks, escapes, entities, dashes ...) x 5 quotes settings (strings and lists of 0-3 character strings) x {replacements, smartquotes, both}", "inline docs x quotes settings")
+    gen_universe(rep, "vf.oracles2:c19_literals", "vf.oracles2:gen_c19_literals", tier, "rules_core.replacements / smartquotes / rules_inline.entity, escape",
+                 "a typographic trigger with one character written as a backslash escape or character reference renders as the literal text, alone and next to genuine triggers",
+                 ["commonmark", "js-default"], "19 triggers x every character position x {decimal, hex, named reference, backslash} x {replacements, smartquotes, both} x 2 contexts", "triggers x encodings")
     rep.explanation = ("Mixed. Deductive: replace_scoped/replace_rare are verified by pyvc - GUARD at every token.content store (type == 'text' and no auto link open, with the counter invariant inside_autolink == -AutoOpen(prefix)), "
                        "and the postcondition that only content of text tokens outside autolinks changes (types, levels, nesting, list length untouched). smartquotes.process_inlines: dominance GUARDs - every content store and every stack push lies past "
                        "the 'text token outside an autolink' test, no other token field or the list is written. ORDER: text_join follows the typographic rules in the core registry, so escapes/entities are still text_special (not text) when they run. "
